@@ -80,7 +80,9 @@ SINK = {
     "renderwith": VIA + "{% render 'p' with r as a %}",
     "includefor": VIA + "{% include 'p' for r as a %}",
     "translate": VIA + "{% translate a: r %}{{ a }}{% endtranslate %}",
+    "translateplural": VIA + "{% translate count: 2, a: r %}one{% plural %}{{ a }}{% endtranslate %}",      # the variable occurs in the plural message only
     "tfilter": VIA + "{{ '%(a)s' | t: a: r }}",
+    "tfilterplural": VIA + "{{ 'one' | t: plural: '%(a)s', count: 2, a: r }}",
     "ternary": "{{ E if true else 'y' }}",
     "ternaryelse": "{{ 'y' if false else E }}",
     "ternarytail": None,        # {{ X if true else 'y' || chain }}
